@@ -1,0 +1,132 @@
+//go:build verif
+
+package mkvs
+
+import (
+	"context"
+	"fmt"
+
+	"github.com/oasisprotocol/oasis-core/go/common/crypto/hash"
+	"github.com/oasisprotocol/oasis-core/go/storage/mkvs/node"
+)
+
+// VerifNode is a plain copy of one tree node as seen through the node cache
+// (verification hook, read-only, build tag "verif").
+type VerifNode struct {
+	// Kind is 0 for a nil pointer, 1 for a leaf node, 2 for an internal node.
+	Kind           int
+	Key            []byte
+	Value          []byte
+	Label          []byte
+	LabelBitLength uint16
+	// Hash is the hash cached in the pointer.
+	Hash  hash.Hash
+	Clean bool
+
+	Leaf  *VerifNode
+	Left  *VerifNode
+	Right *VerifNode
+}
+
+// VerifDump walks the tree from the pending root, dereferencing every pointer
+// through the cache (and hence the node database), and returns a copy of the
+// shape. It does not modify any node.
+func VerifDump(ctx context.Context, tr Tree) (*VerifNode, error) {
+	t, ok := tr.(*tree)
+	if !ok {
+		return nil, fmt.Errorf("verif: not a *tree")
+	}
+	t.cache.Lock()
+	defer t.cache.Unlock()
+	if t.cache.isClosed() {
+		return nil, ErrClosed
+	}
+	return t.verifDump(ctx, t.cache.pendingRoot)
+}
+
+func (t *tree) verifDump(ctx context.Context, ptr *node.Pointer) (*VerifNode, error) {
+	if ptr == nil {
+		return &VerifNode{Kind: 0}, nil
+	}
+	nd, err := t.cache.derefNodePtr(ctx, ptr, nil)
+	if err != nil {
+		return nil, err
+	}
+	out := &VerifNode{Hash: ptr.Hash, Clean: ptr.Clean}
+	switch n := nd.(type) {
+	case nil:
+		out.Kind = 0
+	case *node.LeafNode:
+		out.Kind = 1
+		out.Key = append([]byte{}, n.Key...)
+		out.Value = append([]byte{}, n.Value...)
+	case *node.InternalNode:
+		out.Kind = 2
+		out.Label = append([]byte{}, n.Label...)
+		out.LabelBitLength = uint16(n.LabelBitLength)
+		// Copy the child pointers first: dereferencing a child may evict this node.
+		leaf, left, right := n.LeafNode, n.Left, n.Right
+		if out.Leaf, err = t.verifDump(ctx, leaf); err != nil {
+			return nil, err
+		}
+		if out.Left, err = t.verifDump(ctx, left); err != nil {
+			return nil, err
+		}
+		if out.Right, err = t.verifDump(ctx, right); err != nil {
+			return nil, err
+		}
+	default:
+		return nil, fmt.Errorf("verif: unknown node type %T", nd)
+	}
+	return out, nil
+}
+
+// VerifAnomalies counts states of the in-memory tree that the cache is never
+// supposed to produce (verification hook, read-only).
+type VerifAnomalies struct {
+	// DirtyNodeWithEvictedLeaf counts dirty internal nodes whose embedded
+	// LeafNode pointer is set but whose leaf node has been evicted from the
+	// value cache (LeafNode.Node == nil).
+	DirtyNodeWithEvictedLeaf int
+	// DirtyPointerWithoutNode counts reachable non-clean pointers whose node is
+	// gone (Node == nil).
+	DirtyPointerWithoutNode int
+}
+
+// VerifScan walks the locally cached part of the tree from the pending root
+// without dereferencing (no cache or database access, no LRU update) and
+// counts anomalies.
+func VerifScan(tr Tree) VerifAnomalies {
+	var a VerifAnomalies
+	t, ok := tr.(*tree)
+	if !ok {
+		return a
+	}
+	t.cache.Lock()
+	defer t.cache.Unlock()
+	if t.cache.isClosed() {
+		return a
+	}
+	var walk func(ptr *node.Pointer)
+	walk = func(ptr *node.Pointer) {
+		if ptr == nil {
+			return
+		}
+		if ptr.Node == nil {
+			if !ptr.Clean {
+				a.DirtyPointerWithoutNode++
+			}
+			return
+		}
+		if n, ok := ptr.Node.(*node.InternalNode); ok {
+			if !n.Clean && n.LeafNode != nil && n.LeafNode.Node == nil {
+				a.DirtyNodeWithEvictedLeaf++
+			}
+			walk(n.LeafNode)
+			walk(n.Left)
+			walk(n.Right)
+		}
+	}
+	walk(t.cache.pendingRoot)
+	return a
+}
